@@ -782,3 +782,245 @@ def valmsg(ctx, pid):
                 % (util.norm_src(b)[:70], b.right.id, ast.unparse(r.exc.func)))
     if not bad:
         ctx.ok("refusal-messages", "trie/", "%d raise sites in scope: no refusal message is %%-formatted with a bare parameter" % n, nontrivial=bool(n))
+
+
+# ---------------------------------------------------------------------------
+def _path_facts(ctx, f, st):
+    from ..pq import rel_norm, truth_norm
+    eng = sym(ctx)
+    rels, truth = [], {}
+    for t, pol, _ in st.log:
+        r = rel_norm(t, pol)
+        if r is not None:
+            rels.append(r)
+        else:
+            tt, pp = truth_norm(t, pol)
+            truth[tt] = pp
+    calls = []
+    for ev in st.events:
+        if ev.k == "call" and ev.a == "ok" and isinstance(ev.node, ast.Call):
+            calls.append(eng.ev(ev.node, f, st))
+    return rels, truth, calls
+
+
+@rule("VALTAB", ["C18", "C16", "C12"])
+def valtab(ctx, pid):
+    """The validators themselves, as tables: validate_is_bytes refuses exactly the non-bytes values,
+    validate_length exactly the other lengths; validate_is_node accepts blank / a 2-item node whose key is bytes
+    and whose value is bytes or a valid embedded node / a 17-item node whose value is bytes and whose children are
+    blank, valid embedded nodes or 32-byte hashes, and nothing else; validate_is_bin_node accepts exactly the blank
+    hash and type bytes 0..2; the node encoders of the binary trie refuse an empty key path / empty value."""
+    from .. import pq
+    from ..pq import rel_norm
+    from ..sym import C, tstr
+    eng = sym(ctx)
+    VE = "ValidationError"
+
+    def outcome(p):
+        if p.exit[0] == "raise":
+            return "refuse" if pq.local_raise(p) is not None and p.exit[1].endswith(VE) else "propagated"
+        return "accept"
+
+    # ---- validate_is_bytes
+    f = ctx.P.func(VMOD + "validate_is_bytes")
+    v = ("p", f.params[0])
+    isb = ("call", "ext:isinstance", (v, ("g", "bytes")), ())
+    rows = set()
+    for p, st in pq.states(ctx, f):
+        rels, truth, calls = _path_facts(ctx, f, st)
+        rows.add((truth.get(isb), outcome(p)))
+    c = "table:validate_is_bytes"
+    if rows == {(True, "accept"), (False, "refuse")}:
+        ctx.ok(c, f.loc(), "ValidationError exactly when isinstance(value, bytes) is false")
+    else:
+        ctx.bad(c, f.loc(), "validate_is_bytes behaves as %s; expected {bytes: accept, anything else: ValidationError}" % sorted(rows, key=str))
+    # ---- validate_length
+    f = ctx.P.func(VMOD + "validate_length")
+    v, ln = ("p", f.params[0]), ("p", f.params[1])
+    rows = set()
+    for p, st in pq.states(ctx, f):
+        rels, truth, calls = _path_facts(ctx, f, st)
+        rel = [r[0] for r in rels if (r[1], r[2]) in ((("len", v), ln), (ln, ("len", v)))]
+        rows.add((rel[0] if rel else None, outcome(p)))
+    c = "table:validate_length"
+    if rows == {("==", "accept"), ("!=", "refuse")}:
+        ctx.ok(c, f.loc(), "ValidationError exactly when len(value) != length")
+    else:
+        ctx.bad(c, f.loc(), "validate_length behaves as %s; expected {len == length: accept, otherwise: ValidationError}" % sorted(rows, key=str))
+    if pid == "C12":
+        _encoder_guards(ctx)
+        return
+    # ---- validate_is_bin_node: evaluated on the finite grid of first bytes
+    f = ctx.P.func(VMOD + "validate_is_bin_node")
+    cm = ctx.P.modules["trie.constants"]
+    types = ctx.P.const(cm, "BINARY_TRIE_NODE_TYPES")
+    blank = ctx.P.const(cm, "BLANK_HASH")
+    v = ("p", f.params[0])
+    rows = {}
+    probs = []
+    samples = [blank] + [bytes([b]) + b"x" * 33 for b in range(0, 6)]
+    for sample in samples:
+        outs = set()
+        for p, st in pq.states(ctx, f):
+            rels, truth, calls = _path_facts(ctx, f, st)
+            feas = True
+            for op, l, r in rels:
+                val = None
+                if l == v and r[0] == "c":
+                    val = (sample == r[1])
+                elif l == ("sub", v, C(0)) and r[0] == "c" and op in ("in", "notin"):
+                    val = sample[0] in r[1]
+                    if op == "notin":
+                        val = not val
+                    op = "=="
+                elif l == ("sub", v, C(0)) and r[0] == "c":
+                    val = sample[0] == r[1]
+                else:
+                    outs.add("?")
+                    continue
+                if op == "!=":
+                    val = not val
+                if not val:
+                    feas = False
+                    break
+            if feas:
+                outs.add(outcome(p))
+        rows[sample[:1] if sample != blank else b"blank"] = outs
+        want = "accept" if (sample == blank or sample[0] in (types or ())) else "refuse"
+        if outs != {want}:
+            probs.append("a node %s is %s, expected %s" % ("equal to BLANK_HASH" if sample == blank else "with type byte %d" % sample[0], "/".join(sorted(outs)) or "unreachable", want))
+    c = "table:validate_is_bin_node"
+    if types != (0, 1, 2) and types != [0, 1, 2]:
+        ctx.bad(c, "trie/constants.py", "BINARY_TRIE_NODE_TYPES is %r, expected the three type bytes 0, 1, 2" % (types,))
+    elif probs:
+        ctx.bad(c, f.loc(), probs[0], witness={"problems": probs})
+    else:
+        ctx.ok(c, f.loc(), "accepts exactly BLANK_HASH and first bytes 0, 1, 2 (evaluated for the blank hash and type bytes 0..5)")
+    # ---- validate_is_node
+    f = ctx.P.func(VMOD + "validate_is_node")
+    N = ("p", f.params[0])
+    VB, VL, VN = VMOD + "validate_is_bytes", VMOD + "validate_length", VMOD + "validate_is_node"
+    probs = []
+    seen = set()
+    for p, st in pq.states(ctx, f, unroll=1):
+        rels, truth, calls = _path_facts(ctx, f, st)
+        out = outcome(p)
+        if out == "propagated":
+            continue  # a nested validator refused
+        vcalls = {(t[1], t[2]) for t in calls if t[0] == "call" and t[1] in (VB, VL, VN)}
+        blank = [r[0] for r in rels if r[1] == N and r[2] == C(b"")]
+        lens = {r[2][1]: r[0] for r in rels if r[1] == ("len", N) and r[2][0] == "c" and r[0] in ("==", "!=")}
+        if blank and blank[0] == "==":
+            seen.add("blank")
+            if out != "accept" or vcalls:
+                probs.append("the blank node is not simply accepted")
+            continue
+        if lens.get(2) == "==":
+            k, val = ("sub", N, C(0)), ("sub", N, C(1))
+            il = truth.get(("call", "ext:isinstance", (val, ("g", "list")), ()))
+            seen.add("kv-list" if il else "kv-bytes")
+            want = {(VB, (k,)), (VN, (val,))} if il else {(VB, (k,)), (VB, (val,))}
+            if il is None:
+                probs.append("a 2-item node is accepted without distinguishing an embedded child from a byte string")
+            elif out != "accept" or vcalls != want:
+                probs.append("a 2-item node with %s: validators run %s, expected %s" % ("an embedded child" if il else "a bytes value",
+                             sorted(tstr(("call", a, b, ()))[:40] for a, b in vcalls), sorted(tstr(("call", a, b, ()))[:40] for a, b in want)))
+            continue
+        if lens.get(17) == "==":
+            base = {(VB, (("sub", N, C(16)),))}
+            el = [t for t in _subterms_all(rels, truth) if t[0] == "iter" and t[1] == ("slice", N, None, C(16))]
+            looped = any(ev.k == "loop" for ev in st.events)
+            if not looped:
+                seen.add("branch-0")
+                if out != "accept" or vcalls != base:
+                    probs.append("a 17-item node: the value slot is not validated as bytes before the children")
+                continue
+            if not el:
+                probs.append("the children of a 17-item node are not iterated as node[:16]")
+                continue
+            e = el[0]
+            eb = [r[0] for r in rels if r[1] == e and r[2] == C(b"")]
+            il = truth.get(("call", "ext:isinstance", (e, ("g", "list")), ()))
+            exited = any(ev.k == "loopexit" for ev in st.events)
+            if not exited:
+                probs.append("the scan of the children stops early (break) instead of going on to the next child")
+                continue
+            if eb and eb[0] == "==":
+                seen.add("child-blank")
+                want = base
+            elif il is True:
+                seen.add("child-list")
+                want = base | {(VN, (e,))}
+            elif il is False:
+                seen.add("child-hash")
+                want = base | {(VB, (e,)), (VL, (e, C(32)))}
+            else:
+                probs.append("a child of a 17-item node is accepted without classifying it (blank / embedded / hash)")
+                continue
+            if out != "accept" or vcalls != want:
+                probs.append("17-item node, child case %s: validators run %s, expected %s" % (sorted(seen)[-1], sorted(tstr(("call", a, b, ()))[:40] for a, b in vcalls),
+                             sorted(tstr(("call", a, b, ()))[:40] for a, b in want)))
+            continue
+        # neither blank nor 2 nor 17 items
+        if lens.get(2) == "!=" and lens.get(17) == "!=" and blank and blank[0] == "!=":
+            seen.add("other")
+            if out != "refuse":
+                probs.append("a node that is neither blank nor of 2 / 17 items is accepted")
+            continue
+        if out == "refuse":
+            probs.append("ValidationError on a path that does not exclude the blank node and the 2 / 17 item shapes")
+        else:
+            probs.append("a node is accepted on a path that does not establish one of the three legal shapes")
+    c = "table:validate_is_node"
+    allc = {"blank", "kv-list", "kv-bytes", "branch-0", "child-blank", "child-list", "child-hash", "other"}
+    if probs:
+        ctx.bad(c, f.loc(), probs[0], witness={"problems": sorted(set(probs))[:8]})
+    elif seen != allc:
+        ctx.unsure(c, f.loc(), "cases of validate_is_node not found: %s" % sorted(allc - seen))
+    else:
+        ctx.ok(c, f.loc(), "blank / (bytes key, bytes or valid embedded value) / (bytes value, children blank, valid embedded or 32-byte hash) / otherwise ValidationError")
+    if pid == "C16":
+        _encoder_guards(ctx)
+
+
+def _subterms_all(rels, truth):
+    def sub(t):
+        if isinstance(t, tuple) and t and isinstance(t[0], str):
+            yield t
+        if isinstance(t, tuple):
+            for x in t:
+                if isinstance(x, tuple):
+                    yield from sub(x)
+    for r in rels:
+        yield from sub(r)
+    for t in truth:
+        yield from sub(t)
+
+
+def _encoder_guards(ctx):
+    """encode_kv_node refuses an empty key path, encode_leaf_node an empty value (both ValidationError)"""
+    from .. import pq
+    from ..sym import C
+    for q, pn_i, what in (("trie.utils.nodes:encode_kv_node", 0, "key path"), ("trie.utils.nodes:encode_leaf_node", 0, "value")):
+        f = ctx.P.func(q)
+        v = ("p", f.params[pn_i])
+        rows = set()
+        for p, st in pq.states(ctx, f):
+            rels, truth, calls = _path_facts(ctx, f, st)
+            if p.exit[0] == "raise" and pq.local_raise(p) is None:
+                continue
+            empty = None
+            for op, l, r in rels:
+                if l == v and r == C(b"") and op in ("==", "!="):
+                    empty = op == "=="
+            none = None
+            for op, l, r in rels:
+                if l == v and r == C(None) and op in ("is", "isnot"):
+                    none = op == "is"
+            case = "empty" if (empty or none) else ("nonempty" if empty is False else "?")
+            rows.add((case, "refuse" if p.exit[0] == "raise" else "accept"))
+        c = "empty-guard:%s" % fkey(f)
+        if rows == {("empty", "refuse"), ("nonempty", "accept")}:
+            ctx.ok(c, f.loc(), "an empty %s is refused with ValidationError, anything else goes on to the encoder" % what)
+        else:
+            ctx.bad(c, f.loc(), "%s behaves as %s; expected {empty %s: ValidationError, otherwise: encoded}" % (f.name, sorted(rows), what))
